@@ -147,3 +147,18 @@ Proof.
   destruct HB as [B1 B2]. unfold zlen in B1.
   destruct (afind (a_list a) key); lia.
 Qed.
+
+(* how a call can change the key set of the dict *)
+Lemma lru_keyset_l : forall m t0 its g w cl ds r w' x,
+  mono its -> lru_reach m t0 its g w -> nonneg ds ->
+  wstep lru_step (Call cl ds) w = Ok (Some r, w') ->
+  keyset_rule cl (has (fst w)) (has (fst w')) x.
+Proof.
+  intros m t0 its g [c t] cl ds r [c1 t1] x Hm Hr Hn E.
+  destruct (reach_inv _ _ _ _ _ Hm Hr) as [a [zs [HR [HB [HJ [HC [HS HK]]]]]]]. cbn [fst snd] in *.
+  destruct (linv_call cl ds c t g a zs HR HB HJ HC HS HK Hn) as [c' [zs' [E' [HR' _]]]].
+  cbn [wstep fst snd] in E. rewrite E' in E. injection E as _ Ec _. subst c1.
+  pose proof (keyset_step cl a (mkClk t ds) x (R_akeys_nodup _ _ _ HR)) as K.
+  destruct cl as [key|key v|[key|]|mx|key| | | |]; cbn [keyset_rule] in *;
+    rewrite ?(has_R _ _ _ _ HR), ?(has_R _ _ _ _ HR'); exact K.
+Qed.
